@@ -506,3 +506,42 @@ def epochs(vc):
     before = val(clk.time)
     vc.fn(CK + "ScenarioClock.ticToc")(clk)
     vc.ensure("O-C05-ticToc", val(clk.time) == before + dt)
+
+
+
+@obligation("C05", "clock_config", ensures=["O-C05-clock-config.span"], fns=[CK + "ScenarioClock.fromConfig"], mode="Z",
+            note="the clock built from a time configuration spans the WHOLE configured duration (stop - start in seconds, whole days included) from the configured start with the configured physics step, "
+                 "so the epochs it records (O-C05-epochs.*) cover k = 0 .. floor(D / step)")
+def clock_config(vc):
+    import datetime
+    days, secs = vc.int("days", 0, 400), vc.int("secs", 0, 86399)
+    step = vc.int("step", 2, 3600)
+    got = {}
+
+    class Rec:
+        def __new__(cls, *a):
+            got["args"] = a
+            return "CLOCK"
+    if vc.symbolic:
+        class TD:  # datetime.timedelta by contract: normalised days/seconds fields and their total
+            def __init__(self):
+                self.days, self.seconds, self.microseconds = days, secs, 0
+
+            def total_seconds(self):
+                return days * 86400 + secs
+
+        class DT:
+            def __init__(self, tag):
+                self.tag = tag
+
+            def __sub__(self, other):
+                return TD() if (self.tag, other.tag) == ("stop", "start") else None
+        start, stop = DT("start"), DT("stop")
+        out = vc.fn(CK + "ScenarioClock.fromConfig")(Rec, _NS(start_timestamp=start, stop_timestamp=stop, physics_step_sec=step))
+    else:
+        from resonaate.scenario.clock import ScenarioClock
+        start = datetime.datetime(2020, 2, 27, 22, 10, 5)
+        stop = start + datetime.timedelta(days=days, seconds=secs)
+        out = ScenarioClock.fromConfig.__func__(Rec, _NS(start_timestamp=start, stop_timestamp=stop, physics_step_sec=step))
+    a = got.get("args", (None, None, None))
+    vc.ensure("O-C05-clock-config.span", vc.And(out == "CLOCK", a[0] is start, a[1] == days * 86400 + secs, a[2] is step or a[2] == step))
